@@ -16,7 +16,8 @@ LEVEL = 'model_checking'
 SIZES = [2, 3, 0, 5]
 # ABA: a cohort sampled with replacement (client A listed twice, every occurrence trains and is weighted)
 COHORTS = {'A': [0], 'B': [1], 'AB': [0, 1], 'AC': [0, 2], 'BA': [1, 0], 'DB': [3, 1], 'C': [2], 'ABA': [0, 1, 0]}
-BATCHING = {'b2e1': (2, 1, None, 0), 'b3e2': (3, 2, None, 1), 'b1s1': (1, None, 1, 0)}
+# b4drop: batch_size 4 with drop_remainder - the clients with 2 and 3 examples take NO step (zero update, non-zero weight)
+BATCHING = {'b2e1': (2, 1, None, 0), 'b3e2': (3, 2, None, 1), 'b1s1': (1, None, 1, 0), 'b4drop': (4, 1, None, 0, True)}
 
 
 def pair(case):
@@ -108,7 +109,7 @@ def systems_second_roots(case, p1):
 def lockstep(case):
   depth = case['depth']
   step_a, ia, step_b, ib, pa, pb = pair(case)
-  pop = algos.population(SIZES, case.get('seed', 0))
+  pop = algos.population(SIZES, case.get('seed', 0), batch_level_pre=bool(case.get('batch_level_pre')))
   stats = {'transitions': 0, 'states': 1}
   outs = set()
   viols = []
@@ -182,9 +183,12 @@ def plan(ctx):
   for p in ('fedprox0', 'hyp1', 'mimelite_sgd', 'apfl_global'):
     for lr in (0.125, 0.5):
       for b in BATCHING:
-        if not th and (lr, b) not in ((0.125, 'b2e1'), (0.5, 'b3e2'), (0.125, 'b1s1')):
+        if not th and (lr, b) not in ((0.125, 'b2e1'), (0.5, 'b3e2'), (0.125, 'b1s1'), (0.5, 'b4drop')):
           continue
         cs.append({'pair': p, 'lr': lr, 'batching': b, 'depth': depth, 'seed': ctx.seed})
+  # clients whose datasets carry a batch-level preprocessor (centring on the batch mean): both sides must see the same batches
+  for p in ('fedprox0', 'hyp1', 'mimelite_sgd', 'apfl_global'):
+    cs.append({'pair': p, 'lr': 0.125, 'batching': 'b2e1', 'depth': 2, 'seed': ctx.seed, 'batch_level_pre': True})
   cs.append({'pair': 'mimelite_sgd_clip', 'lr': 0.125, 'batching': 'b2e1', 'depth': depth, 'seed': ctx.seed})
   for p in ('fedprox0', 'hyp1', 'apfl_global'):
     for co in ('mom', 'adam') if th else ('mom',):
